@@ -88,3 +88,47 @@ func VerifC18Nesting(depth int) {
 	verif.Reach("c18:nesting")
 	verif.Assert("C20:json-nesting-is-bounded-or-translated", err == nil || strings.Contains(err.Error(), "nesting"))
 }
+
+// ---------------------------------------------------------------- C20: JSON rule TEXT (structure-aware corpus)
+
+var c20JSONTexts = []string{
+	"", " ", "\n\t ", "[", "{", "]", "x", "null", "[]", "{}", "[null]", "[{}]", "[[]]", "[1]", "[\"a\"]", "{\"name\":1}",
+	"{\"name\":\"R\"}", "{\"name\":\"R\",\"when\":null,\"then\":null}", "{\"name\":\"R\",\"when\":\"true\",\"then\":[]}",
+	"{\"name\":\"R\",\"when\":\"true\",\"then\":[null]}", "{\"name\":\"R\",\"when\":{\"and\":null},\"then\":[\"x\"]}",
+	"{\"name\":\"R\",\"when\":{\"and\":[null,null]},\"then\":[\"x\"]}", "{\"name\":\"R\",\"when\":{\"eq\":[null,null]},\"then\":[\"x\"]}",
+	"{\"name\":\"R\",\"when\":{\"eq\":[{\"obj\":null},{\"const\":null}]},\"then\":[\"x\"]}",
+	"{\"name\":\"R\",\"when\":\"true\",\"then\":[{\"call\":[null]}]}", "{\"name\":\"R\",\"when\":\"true\",\"then\":[{\"set\":[null,null]}]}",
+	"{\"name\":\"R\",\"when\":\"true\",\"then\":[{\"call\":[\"Log\",null]}]}",
+	"[{\"name\":\"R\",\"when\":\"true\",\"then\":[\"x\"]},null]", "[null,{\"name\":\"R\",\"when\":\"true\",\"then\":[\"x\"]}]",
+	"{\"name\":\"R\",\"salience\":1e400,\"when\":\"true\",\"then\":[\"x\"]}", "{\"name\":\"R\",\"salience\":1.5,\"when\":\"true\",\"then\":[\"x\"]}",
+	"{\"NAME\":\"R\",\"When\":\"true\",\"THEN\":[\"x\"]}", "{\"name\":\"R\",\"when\":\"true\",\"then\":\"x\"}",
+}
+
+type c20Res struct{ data []byte }
+
+func (r *c20Res) Load() ([]byte, error) { return r.data, nil }
+func (r *c20Res) String() string        { return "harness resource" }
+
+// VerifC20JSONText: JSONResource.Load on a structure-aware corpus of JSON rule texts (and fragments) must return a
+// result or an error, never panic. (The texts are concrete: encoding/json is not encoded for symbolic bytes.)
+func VerifC20JSONText() {
+	txt := c20JSONTexts[verif.Choice("text", len(c20JSONTexts))]
+	res, _ := NewJSONResourceFromResource(&c20Res{data: []byte(txt)})
+	verif.Reach("c20:json-text")
+	panicked := false
+	var err error
+	var out []byte
+	func() {
+		defer func() {
+			if r := recover(); r != nil {
+				panicked = true
+			}
+		}()
+		out, err = res.Load()
+	}()
+	verif.Assert("C20:json-rule-loader-does-not-panic", !panicked)
+	if !panicked {
+		verif.Assert("C20:json-rule-loader-returns-a-result-or-an-error", (err != nil) != (out != nil))
+	}
+	verif.Event("text", len(txt), panicked, err != nil)
+}
